@@ -294,11 +294,15 @@ def normLoop : List Char → List Char
 
 def normalizeSpaceM (s : String) : String := String.ofList (normLoop (goTrimSpace s.toList))
 
-/-- `substring` after the repair: positions `p` with `lo ≤ p < hi`, `lo = floor(start+0.5)`,
-`hi = lo + floor(length+0.5)` (or +∞), clipped to the string by float comparisons -/
+/-- `xpathRound`: `r := math.Floor(x); if x-r >= 0.5 { return r + 1 }; return r` -/
+def xpathRoundM (x : F) : F :=
+  let r := floor x
+  if le (div (ofNat 1) (ofNat 2)) (sub x r) then add r (ofNat 1) else r
+
+/-- `substring` after the repairs: positions `p` with `lo ≤ p < hi`, `lo = xpathRound(start)`,
+`hi = lo + xpathRound(length)` (or +∞), clipped to the string by float comparisons -/
 def substringM (m : String) (start : F) (len : Option F) : String :=
-  let half : F := div (ofNat 1) (ofNat 2)
-  let lo := floor (add start half)
+  let lo := xpathRoundM start
   let n := m.length
   let cs := m.toList
   match len with
@@ -306,7 +310,7 @@ def substringM (m : String) (start : F) (len : Option F) : String :=
     -- keep positions p ≥ lo
     String.ofList ((cs.zipIdx).filterMap (fun (c, i) => if le lo (ofNat (i+1) : F) then some c else none))
   | some l =>
-    let hi := add lo (floor (add l half))
+    let hi := add lo (xpathRoundM l)
     let _ := n
     String.ofList ((cs.zipIdx).filterMap (fun (c, i) =>
       if le lo (ofNat (i+1) : F) && lt (ofNat (i+1) : F) hi then some c else none))
